@@ -449,3 +449,17 @@ M("c12-no-lock", "C12", "C12.ORDER", (TPCS, "        with self._update_lock:\n  
 M("c12-handler-appends", "C12", "C12.APPLY", (TH, "        self._tp_config = new_config\n", "        self._tp_config = self._tp_config + new_config\n"))
 M("c12-custom-dropped", "C12", "C12.APPLY", (TPCS, "listeners.config_change(ts, old_hash, current_hash, old_config, new_config + self._custom)", "listeners.config_change(ts, old_hash, current_hash, old_config, new_config)"))
 R("c12-serial-pool", "C12", (TASK, "self._pool = ThreadPoolExecutor(max_workers=2)", "self._pool = ThreadPoolExecutor(max_workers=1)"))
+
+# ------------------------------------------------------------------ C15
+CBC = "src/deep/processor/context/callback_context.py"
+TLF = "src/deep/thread_local.py"
+M("c15-process-and-keep", "C15", "C15.ONCE", (TH, "            context.process(ctx, event, frame, arg)\n        else:", "            context.process(ctx, event, frame, arg)\n            self._callbacks.value.append(context)\n        else:"))
+M("c15-dropped-when-elsewhere", "C15", "C15.ONCE", (TH, "            # else put the context back on the queue\n            self._callbacks.value.append(context)\n", "            # else put the context back on the queue\n"))
+M("c15-register-before-processing", "C15", "C15.ONCE", (TH, "        if event in [\"line\", \"return\", \"exception\"] and self._callbacks.is_set:\n            self.__process_call_backs(trigger_context, arg, frame, event, file, line, function)\n", ""), (TH, "        return self.trace_call\n\n    def __actions_for_location", "        if event in [\"line\", \"return\", \"exception\"] and self._callbacks.is_set:\n            self.__process_call_backs(trigger_context, arg, frame, event, file, line, function)\n        return self.trace_call\n\n    def __actions_for_location"))
+M("c15-method-completes-on-line", "C15", "C15.TABLE", (CBC, "        if event in ['exception', 'return']:\n            return True\n        return False", "        if event in ['exception', 'return', 'line']:\n            return True\n        return False"))
+M("c15-ignores-function-name", "C15", "C15.TABLE", (CBC, "        if file != self.__filename or function_name != self.__function_name:\n            return False\n\n        if self.__event", "        if file != self.__filename:\n            return False\n\n        if self.__event"))
+M("c15-capture-trigger-arg", "C15", "C15.RESULT", (SNAP, "            watch, new_vars, _ = self.__action_context.process_capture_variable(event, arg)\n            self.__snapshot.add_watch_result(watch)", "            watch, new_vars, _ = self.__action_context.process_capture_variable(event, ctx.arg)\n            self.__snapshot.add_watch_result(watch)"))
+M("c15-deferred-sent-only-on-return", "C15", "C15.RESULT", (SNAP, "            self.__snapshot.merge_var_lookup(new_vars)\n\n        ctx.push_service.push_snapshot(self.__snapshot)\n        return False", "            self.__snapshot.merge_var_lookup(new_vars)\n            ctx.push_service.push_snapshot(self.__snapshot)\n        return False"))
+M("c15-class-level-store", "C15", "C15.THREAD", (TLF, "        self.__store = threading.local()\n", "        self.__store = ThreadLocal._shared\n"), (TLF, "    def __init__(self, default_provider: Callable[[], T] = lambda: None):", "    _shared = threading.local()\n\n    def __init__(self, default_provider: Callable[[], T] = lambda: None):"))
+M("c15-ident-keyed", "C15", "C15.THREAD", (TLF, "        return hasattr(self.__store, 'value')", "        return hasattr(self.__store, 'value') and threading.current_thread().ident is not None"))
+M("c15-shared-callbacks", "C15", "C15.THREAD", (TH, "        self._callbacks: ThreadLocal[Deque[CallbackContext]] = ThreadLocal(lambda: deque())", "        self._callbacks: ThreadLocal[Deque[CallbackContext]] = _CALLBACKS"), (TH, "class TriggerHandler:\n", "_CALLBACKS = ThreadLocal(lambda: deque())\n\n\nclass TriggerHandler:\n"))
